@@ -45,7 +45,12 @@ FinalViol(m, st, p, r) ==
       newR == Slice(m.new, m.ns, m.ne)
       clean == ~st.failed /\ ~st.broken /\ r.ok
       \* oracles that are quadratic in the input size are only evaluated up to fixed sizes
-      lcsOk == N <= 4000 /\ M <= 4000 /\ N * M <= 400000
+      small == N <= 4000 /\ M <= 4000 /\ N * M <= 400000
+      \* larger inputs are judged when no item repeats on either side and few items are common
+      distinct == ~small /\ N <= 20000 /\ M <= 20000 /\ AllDistinct(oldR) /\ AllDistinct(newR)
+                  /\ Cardinality({oldR[i] : i \in 1..N} \cap {newR[j] : j \in 1..M}) <= 300
+      lcsOk == small \/ distinct
+      L == IF small THEN LcsLen(oldR, newR) ELSE LcsLenDistinct(oldR, newR)
       anchOk == N + M <= 800
       D == st.dels + st.inss
       covered == SumSeq([i \in 1..Len(st.segs) |->
@@ -53,7 +58,7 @@ FinalViol(m, st, p, r) ==
                        At(m.old, st.segs[i][1] + j) \in CommonUnique(oldR, newR)})])
   IN SRetViol(st, r.ok, r.err, m.stack \notin {"nofinish", "replace_nofinish", "replace_nofinish_nr"})
      \cup (IF clean /\ lcsOk /\ m.fuel = -2 /\ m.alg \in {"myers", "lcs"}
-              /\ D # N + M - 2 * LcsLen(oldR, newR)
+              /\ D # N + M - 2 * L
            THEN {"minimal"} ELSE {})
      \cup (IF clean /\ anchOk /\ m.fuel = -2 /\ m.alg = "patience"
               /\ covered < AnchorOptimum(oldR, newR)
